@@ -181,8 +181,9 @@ Challenges == F \X F
 Next ==
   /\ accRE = -1
   /\ accRE' = Cardinality({c \in Challenges : AcceptRE(c[1], c[2])})
-  /\ nonPole' = Cardinality({c \in Challenges : ~IsPole(c[1], c[2])})
-  /\ accLD' = Cardinality({c \in Challenges : ~IsPole(c[1], c[2]) /\ AcceptLD(c[1], c[2])})
+  /\ LET np == {c \in Challenges : ~IsPole(c[1], c[2])}
+     IN /\ nonPole' = Cardinality(np)
+        /\ accLD' = Cardinality({c \in np : AcceptLD(c[1], c[2])})
   /\ UNCHANGED <<lut, oth, lk, tb, cor>>
 Spec == Init /\ [][Next]_vars
 
